@@ -27,6 +27,12 @@ func (e *Engine) verifyFunc(key string) (res *FuncResult) {
 	c := e.db.C[key]
 	fi := e.funcs[key]
 	if fi == nil {
+		// "Func@variant": a second contract (e.g. in another mode) for the same function
+		if i := strings.LastIndex(key, "@"); i > 0 {
+			fi = e.funcs[key[:i]]
+		}
+	}
+	if fi == nil {
 		res.Err = "function not found in /repo: " + key
 		return
 	}
